@@ -311,7 +311,10 @@ def _model(prog: Dict[str, Any], symbols: Dict[str, int]) -> Dict[str, Any]:
         for lb in ("L0", "L1", "L2", "L3", "L4", "L6", "ISR", "IMR", "KOL", "UCR", "LCC"):
             probe_text = probe_text.replace(lb, f"0x{addr & 0xF0000 | 0x10:X}")
         try:
-            size = len(_standalone(addr, probe_text))
+            # a page-local transfer is encoded the same anywhere on its page: its reference encoding is taken in the
+            # middle of the page, so that what the assembler does at a page's last bytes is judged, not assumed
+            ref_addr = (addr & 0xF0000) | 0x8000 if text.startswith(NEAR) else addr
+            size = len(_standalone(ref_addr, probe_text))
             if text.lower().startswith("defs"):
                 size = int(text.split()[1])
         except Exception as e:
@@ -338,7 +341,7 @@ def _model(prog: Dict[str, Any], symbols: Dict[str, int]) -> Dict[str, Any]:
         if cross_page:
             break
         try:
-            data = _standalone(addr, text)
+            data = _standalone((addr & 0xF0000) | 0x8000 if s["text"].startswith(NEAR) else addr, text)
         except Exception as e:
             return {"error": f"standalone assembly of {text!r} failed: {e}"[:200]}
         if sec == "bss":
